@@ -99,6 +99,17 @@ def systematic():
     yield "float", [("const", 1)], [1.0, 2.0]
     yield "str", [("const", "a")], ["a", "b", "", "A"]
     yield "bool", [("const", True)], [True, False]
+    # the declared constant and the value of different but ==-equal types, in both directions
+    yield "int", [("const", True)], [1, 0, 2]
+    yield "int", [("const", False)], [0, 1]
+    yield "float", [("const", True)], [1.0, 0.0]
+    yield "int", [("const", 1.0)], [1, 2]
+    yield "int", [("const", D("1"))], [1, 2]
+    yield "Decimal", [("const", 1)], [D("1"), D("1.0"), D("2")]
+    yield "float", [("const", D("1.5"))], [1.5]
+    yield "Decimal", [("const", 1.5)], [D("1.5")]
+    yield "str", [("const", b"a")], ["a"]
+    yield "int", [("enum", [True, 2.0])], [1, 2, 0]
     yield "Decimal", [("const", D("1.5"))], [D("1.5"), D("1.50"), D("1.6")]
     yield "int", [("enum", [1, 2, 3])], [0, 1, 2, 3, 4, True, False]
     yield "int", [("enum", [0, 5])], [0, 5, False, True, 1]
